@@ -36,6 +36,7 @@ def run_translator():
     """Regenerate Gen/Cdp2adp_gen.v from /repo/mechanisms/cdp2adp.py (only rewritten when the text changes).
     Returns (ok, message). On failure the previous file is left in place (other properties are unaffected)."""
     dst = os.path.join(COQ, 'Gen', 'Cdp2adp_gen.v')
+    os.makedirs(os.path.dirname(dst), exist_ok=True)
     tmp = dst + '.new'
     rc, out = sh([sys.executable, os.path.join(VERIF, 'translator', 'py2gallina.py'), os.path.join(REPO, 'mechanisms', 'cdp2adp.py'), tmp,
                   'cdp_delta_standard', 'cdp_delta', 'cdp_eps', 'cdp_rho'])
